@@ -130,7 +130,7 @@ def describe(body, e, args_param, depth=0):
                 p = src[1]["path"]
                 if p.endswith("::next") or p.endswith("::next_back"):
                     v = view_of(src[2][0], args_param)
-                    return Descriptor("elem", v, iteration=("loop", body.key, src[3]), src=body.xtrace(body.blocks[src[3]]["term"]["args"][0]) if isinstance(src[3], int) and src[3] >= 0 else src[2][0])
+                    return Descriptor("elem", v, iteration=("loop", body.key, src[3]), src=body.xtrace(body.blocks[src[3]]["term"]["args"][0]) if isinstance(src[3], int) and 0 <= src[3] < len(body.blocks) and body.blocks[src[3]]["term"].get("k") == "Call" and body.blocks[src[3]]["term"].get("args") else src[2][0])
                 if re.search(r"::(first|last|get|split_first|split_last)$", p):
                     v = view_of(src[2][0], args_param)
                     if p.endswith("::first"):
